@@ -1,8 +1,81 @@
-import LW.Model.Rewrite
+/-
+  C09 — Circuit rewrites preserve the transformation.
+
+  `compile` is the model of the circuit compiler, `unpackSpec`, `compressSwaps`, `convertNonAdj`
+  the models of the three rewrites (LW.Model.Circuit / LW.Model.Rewrite).  Heralds, `n` and the
+  input size are fields of `Circ` that the rewrites do not touch (`*_keeps_heralds`), so equality
+  of `compile` is equality of `U_full` and of every heralded transition amplitude.
+  `copy` is the identity on the model: model values are immutable, so a copy shares no mutable
+  structure by construction; the aliasing clause is checked on the implementation by the harness.
+-/
+import LW.Proofs.C09
 
 namespace LW.C09
 
-/-- interim (replaced by the real theorems): unpacking an empty spec gives the empty spec -/
-theorem unpack_nil {K : Type} : unpackSpec ([] : List (Comp K)) = [] := rfl
+variable {K : Type} [CommRing K] [StarRing K]
+
+/-- unpacking groups leaves `U_full` unchanged, for every spec -/
+theorem unpack_compile (i : K) (n : Nat) (spec : List (Comp K)) :
+    compile i n (unpackSpec spec) = compile i n spec :=
+  Proofs.C09.unpack_compile i n spec
+
+/-- after unpacking no group remains -/
+theorem unpack_no_group (spec : List (Comp K)) :
+    ∀ c ∈ unpackSpec spec, ∃ p, c = .prim p :=
+  Proofs.C09.unpack_no_group spec
+
+/-- `unpack_groups` keeps mode count and heralds (ancillas become ordinary heralded modes) -/
+theorem unpackGroups_keeps (c : Circ K) :
+    c.unpackGroups.n = c.n ∧ c.unpackGroups.inHer = c.inHer ∧ c.unpackGroups.outHer = c.outHer ∧
+    c.unpackGroups.inputModes = c.inputModes :=
+  Proofs.C09.unpackGroups_keeps c
+
+/-- replacing non-adjacent beam splitters leaves `U_full` unchanged -/
+theorem convertNonAdj_compile (i : K) (n : Nat) (spec : List (Comp K)) (h : SpecWf n spec) :
+    compile i n (convertNonAdj spec) = compile i n spec :=
+  Proofs.C09.convertNonAdj_compile i n spec h
+
+/-- afterwards every beam splitter, also inside groups, acts on adjacent modes -/
+theorem convertNonAdj_adjacent (spec : List (Comp K)) :
+    ∀ c ∈ convertNonAdj spec, ∀ p ∈ c.toPrims, ∀ m1 m2 cc ss cv, p = Prim.bs m1 m2 cc ss cv →
+      m1 + 1 = m2 ∨ m2 + 1 = m1 :=
+  Proofs.C09.convertNonAdj_adjacent spec
+
+/-- swap compression never increases the number of components -/
+theorem compress_length_le (spec : List (Comp K)) :
+    (compressSwaps spec).length ≤ spec.length :=
+  Proofs.C09.compress_length_le spec
+
+/-- combining two swap dictionaries composes the permutations: `P(combine σ τ) = P(τ) · P(σ)` -/
+theorem combine_permMat (n : Nat) (σ τ : Dict) (hσ : SwapsOk n σ) (hτ : SwapsOk n τ) :
+    (permMat (combineSwapDicts σ τ) n : M K) = (permMat τ n).mul (permMat σ n) :=
+  Proofs.C09.combine_permMat n σ τ hσ hτ
+
+/-- ORIGINAL statement of `compress_compile`, kept for the record.  It is FALSE as stated
+(`compress_compile_statement_false`): `SpecWf` does not confine the leaf components of a group to
+the group's declared mode range `[m1, m2]`, which is all that `Comp.blocked` looks at.  Witness
+(`Proofs.C09.cexSpec`, `K = ℤ`, `n = 4`):
+`[swaps {0:1,1:0}, group [ps 0 (-1)] 2 3, swaps {0:1,1:0}]`. -/
+def compress_compile_statement : Prop :=
+  ∀ {K : Type} [CommRing K] [StarRing K] (i : K) (n : Nat) (spec : List (Comp K)),
+    SpecWf n spec → compile i n (compressSwaps spec) = compile i n spec
+
+theorem compress_compile_statement_false : ¬ compress_compile_statement :=
+  Proofs.C09.compress_compile_statement_false
+
+/-- swap compression leaves `U_full` unchanged, provided the leaf components of every group act
+inside the group's declared mode range (`SpecGroupOk`, LW/Proofs/GroupWf.lean; the intended
+invariant of groups built by `Circuit.add`, not proved here) -/
+theorem compress_compile_partial (i : K) (n : Nat) (spec : List (Comp K)) (h : SpecWf n spec)
+    (hg : SpecGroupOk spec) :
+    compile i n (compressSwaps spec) = compile i n spec :=
+  Proofs.C09.compress_compile_partial i n spec h hg
+
+/-- the rewrites do not touch heralds, mode count or input size -/
+theorem rewrites_keep_heralds (c : Circ K) :
+    (c.compress.n = c.n ∧ c.compress.inHer = c.inHer ∧ c.compress.outHer = c.outHer) ∧
+    (c.removeNonAdj.n = c.n ∧ c.removeNonAdj.inHer = c.inHer ∧ c.removeNonAdj.outHer = c.outHer) ∧
+    c.copy = c :=
+  Proofs.C09.rewrites_keep_heralds c
 
 end LW.C09
